@@ -159,6 +159,8 @@ type c13Pop struct {
 	Eng    []c13Eng `json:"engineered"`
 	// number of batches of the mutating session (c13_session.go); 0 = no session
 	Steps int `json:"session_steps,omitempty"`
+	// larger case lists in the parts whose size is not given by the population (c13_held.go)
+	Thorough bool `json:"thorough,omitempty"`
 }
 
 type c13Finding struct {
@@ -930,6 +932,8 @@ func c13RunPop(p c13Pop) c13PopResult {
 			}
 		}
 	}
+	// answers kept across later resolutions, and resolutions running concurrently (c13_held.go); same cache, population untouched
+	c13HeldAndConcurrent(p, cw, c, bugPop, identPop, comPop, commentOf, bugQ, identQ, comQ, acc)
 	// the same repository in other load states (c13_loadstate.go); replaces the open cache
 	c13LoadStates(p, cw, c, bugPop, identPop, comPop, commentOf, acc)
 	// one long-lived cache over a population that keeps changing (c13_session.go); replaces the open cache
@@ -981,6 +985,7 @@ func c13Pops(r *mon.Run) []c13Pop {
 	add := func(p c13Pop) {
 		p.Seed = r.Seed
 		p.Idx = len(pops)
+		p.Thorough = r.Thorough()
 		if p.Steps == 0 {
 			p.Steps = 8 // the degenerate populations: a short session (it also empties and refills them)
 		}
@@ -1116,6 +1121,7 @@ func runC13(tier, replay string) int {
 	outcomes := runBatchesRetry[c13Pop, c13PopResult](r, "c13pop", pops, 1, 8*time.Minute)
 	partial := map[string]int{}
 	constant := map[string]int{}
+	overlapped, heldLists := 0, 0
 	for i, oc := range outcomes {
 		p := pops[i]
 		if oc.Crashed {
@@ -1149,6 +1155,10 @@ func runC13(tier, replay string) int {
 				partial[ns] += v
 			}
 			switch k {
+			case "concurrent/calls_started_while_another_was_in_flight":
+				overlapped += v
+			case "held/multiple_match_errors_kept":
+				heldLists += v
 			case "session_batches_bugs/count-constant":
 				constant["bugs"] += v
 			case "session_batches_identities/count-constant":
@@ -1176,6 +1186,14 @@ func runC13(tier, replay string) int {
 	if replay != "" {
 		min = 0
 	} else {
+		// the concurrent part must have had resolutions in flight at the same time, the held part
+		// multiple-match errors that were read after later resolutions
+		if overlapped == 0 {
+			r.Inconclusive("no resolution of the concurrent part was started while another one was in flight")
+		}
+		if heldLists == 0 {
+			r.Inconclusive("no multiple-match error was kept across a later resolution")
+		}
 		// the load-state part must have met what it is there for: ambiguous prefixes of which some
 		// but not all matching entities are in memory
 		for _, ns := range []string{"bugs", "identities"} {
@@ -1188,7 +1206,7 @@ func runC13(tier, replay string) int {
 			}
 		}
 	}
-	return r.Finish("reference model (sorted population + binary search) predicting unique / multiple(exact list) / none for every queried string; queries = every prefix length 0..64 of every bug id, identity id and comment combined id of real repositories with engineered shared prefixes, plus one-character perturbations (last character, any character of the full id, a non-hex character, one extra character) and ids of the other namespace; APIs: Bugs/Identities ResolvePrefix + ResolveExcerptPrefix, Bugs.ResolveComment, _select.Resolve with and without a preselected bug; the same lookups (all prefixes, last-character perturbations, one extra character, ids of the other namespace; ResolveComment on a sample of comments; ResolveBugCreateMetadata / ResolveIdentityImmutableMetadata on planted values) repeated against the same repository in the load states all-loaded (cache just built), reopened-none, reopened-subset / reopened-complement (every other id in sorted order resolved by full id), lru-small (1..3 loaded entities, then a shuffled mix during which the loaded set changes), every answer compared with the model AND with the answer of the all-loaded state (target or error class + full match list); then a mutating session per population: the repository reopened, ONE cache kept open, a seed-determined sequence of batches of population changes through the cache API (Bugs().NewRaw + AddCommentRaw, Bugs()/Identities().Remove by full id or shortest unique prefix, Identities().NewRaw, Pull of bugs / identities / comments a peer replica created with ids engineered against entities removed in the same batch, removed earlier or alive, RemoveAll followed by a pull that brings the remote's entities back), a batch being one change or several with no question in between (count kept: remove+create, create+remove, remove+pull, 2+2; grown; shrunk; both namespaces), and after EACH batch the model recomputed over the current population (cross-checked against the stored refs and the comments read through the entity layer) and all lookups asked again with every prefix length 0..64, the last character replaced and one extra character of the ids created / removed / pulled by the batch, their nearest neighbours, ids removed by earlier batches and untouched ones; plus SeparateIds(CombineIds(b,o)[:L]) for 10 002 id pairs x 65 lengths. A query is non-trivial when the prefix is non-empty and the population has at least two members; distinct = distinct (API, query kind, prefix length, expected outcome class)",
+	return r.Finish("reference model (sorted population + binary search) predicting unique / multiple(exact list) / none for every queried string; queries = every prefix length 0..64 of every bug id, identity id and comment combined id of real repositories with engineered shared prefixes, plus one-character perturbations (last character, any character of the full id, a non-hex character, one extra character) and ids of the other namespace; APIs: Bugs/Identities ResolvePrefix + ResolveExcerptPrefix, Bugs.ResolveComment, _select.Resolve with and without a preselected bug; the same lookups (all prefixes, last-character perturbations, one extra character, ids of the other namespace; ResolveComment on a sample of comments; ResolveBugCreateMetadata / ResolveIdentityImmutableMetadata on planted values) repeated against the same repository in the load states all-loaded (cache just built), reopened-none, reopened-subset / reopened-complement (every other id in sorted order resolved by full id), lru-small (1..3 loaded entities, then a shuffled mix during which the loaded set changes), every answer compared with the model AND with the answer of the all-loaded state (target or error class + full match list); then a mutating session per population: the repository reopened, ONE cache kept open, a seed-determined sequence of batches of population changes through the cache API (Bugs().NewRaw + AddCommentRaw, Bugs()/Identities().Remove by full id or shortest unique prefix, Identities().NewRaw, Pull of bugs / identities / comments a peer replica created with ids engineered against entities removed in the same batch, removed earlier or alive, RemoveAll followed by a pull that brings the remote's entities back), a batch being one change or several with no question in between (count kept: remove+create, create+remove, remove+pull, 2+2; grown; shrunk; both namespaces), and after EACH batch the model recomputed over the current population (cross-checked against the stored refs and the comments read through the entity layer) and all lookups asked again with every prefix length 0..64, the last character replaced and one extra character of the ids created / removed / pulled by the batch, their nearest neighbours, ids removed by earlier batches and untouched ones; held answers (c13_held.go): on the cache just built, seed-determined sequences of two or three resolutions (all 36 orders of expected-unique / ambiguous / unknown; ResolvePrefix, ResolveExcerptPrefix, ResolveComment and the lookups by metadata of one sub-cache, plus sequences mixing both sub-caches; ambiguous queries drawn by number of matches so that longer, equal, shorter and empty match lists follow a kept list), the returned entity / excerpt / error object / (bug, combined id) kept untouched and only read and judged against the model after the whole sequence was performed; concurrent resolutions: per population four rounds (bug sub-cache, bug sub-cache prefix lookups only, identity sub-cache, both) of 4..8 goroutines released together, each resolving its own seed-determined list of 4000 queries (50 % unique, 30 % ambiguous, 20 % unknown) against the one cache of a constant, fully loaded population, every answer judged against the model; plus SeparateIds(CombineIds(b,o)[:L]) for 10 002 id pairs x 65 lengths. A query is non-trivial when the prefix is non-empty and the population has at least two members; distinct = distinct (API, query kind, prefix length, expected outcome class)",
 		min, []string{
 			"ids cannot be chosen (sha256 over a serialisation with a random nonce): population sizes and engineered prefix lengths are a function of the seed, the concrete ids are not",
 			"the population is what was committed through the entity API, cross-checked against the ref names read by gitraw; a comment's combined id is taken from Snapshot.Comments and checked to split into prefixes of (bug id, operation id) at every length",
@@ -1196,6 +1214,7 @@ func runC13(tier, replay string) int {
 			"_select.Resolve with a preselected bug may fall back to it when the first argument matches nothing, provided the arguments are handed back untouched",
 			"load states: which bugs are in memory is read back through the hook VerifLoadedBugIds; for identities there is no such hook, the loaded set is the one the recipe resolved by full id (valid on the unchanged tree, used for the evidence counters only, never by the oracle)",
 			"mutating session: the population after a batch is the one the session predicts (local changes applied; after a pull everything the remote holds is present again, comments united) and it is only used when the refs read by gitraw and the comments read by bug.Read agree with it, else the session ends inconclusive; comments are committed before the next question; Remove(prefix) is a lookup by prefix: refusing a prefix that matches exactly one entity with not-found / multiple-match is judged, any other failure of a changing call ends the session inconclusive; identities that authored an operation (and the user identity) are only removed by RemoveAll",
+			"held and concurrent answers: the population is constant and every entity is in memory, so the model's prediction is the only acceptable answer at any later reading and under any interleaving; the goroutine count and each goroutine's query list are a function of the seed, the interleaving is the scheduler's (plain build, no race detector: the driver builds vh-race for other properties only); a run in which no two resolutions were in flight together is inconclusive",
 			"lookups by metadata are outside the statement's wording (id prefixes): only 'the entity when exactly one carries the value, a failure otherwise' is judged against the model, plus equality of the answers between load states",
 		})
 }
